@@ -15,7 +15,7 @@ func init() {
 		technique: "guarded-arithmetic abstract interpretation on go/ssa (linear forms + intervals, Fourier–Motzkin entailment, wrap-aware conversions, inductive phi<=len invariant) for every slice/index/wire-read/allocation of the decoders; writer/reader layout token agreement; pooled-frame use-after-release rule",
 		explanation: "Decides: (1) no panic / no out-of-range read / bounded allocation in the decoders (ProtoSerializer.UnmarshalBinary, UnmarshalBinaryWithMetadata, Metadata.UnmarshalBinary, readProtoFrame, Client.unmarshalProtoResponse, ProtoServer.handleConn): every slice expression, index, binary.BigEndian.UintN read and unsafe.String view on the input is entailed in bounds by the dominating guards for every input — arithmetic done in a narrower unsigned type is treated as wrapping, so a length computed in uint32 loses its relation to its operands; every allocation sized from wire data is dominated by a comparison against a constant or the configured maximum frame size; (2) writer/reader layout agreement: the header fields written by MarshalBinaryTo / MarshalBinaryWithMetadataTo / Metadata.MarshalBinary (sequence of fixed-width big-endian fields, then name, metadata, payload) equal the fields read by the matching decoder; (3) frames are read one by one: the reader consumes exactly totalLen bytes (4-byte header plus frame[4:] of a frame of length totalLen); (4) a pooled frame and the zero-copy type name viewing it are not used after framePool.Put on any path.",
 		assumptions: []string{"int is 64 bits (GOARCH=amd64/arm64); slice lengths are below 2^56", "protobuf Marshal/Unmarshal round trip and message equality are the protobuf library's", "deadline tolerance of the metadata block is a timing property"},
-		minObl:     60,
+		minObl:     74,
 		run:        runC23,
 	})
 }
